@@ -24,6 +24,8 @@ SentOf(kind) ==
     [] kind = "opaqueM" -> <<"O", "Possibility", <<<<"A", 0, 0>>>>>>
     [] kind = "selfid"  -> <<"P", <<-1, 0, 2>>, <<a0, a0>>>>
     [] kind = "ident"   -> <<"P", <<-1, 0, 2>>, <<a0, b0>>>>
+    [] kind = "identsub" -> <<"P", <<-1, 0, 2>>, <<a0, <<"c", 0, 1>>>>>>      \* same letter, other subscript
+    [] kind = "existsub" -> <<"P", <<-2, 0, 1>>, <<<<"c", 0, 1>>>>>>
     [] kind = "exist"   -> <<"P", <<-2, 0, 1>>, <<a0>>>>
 
 Classical(L) == Logic(L).base = "CPL"
@@ -31,7 +33,7 @@ KindsFor(L) ==
   {"atom", "pred"}
   \cup (IF Logic(L).quantified THEN {} ELSE {"opaqueQ"})
   \cup (IF Logic(L).modal THEN {} ELSE {"opaqueM"})
-  \cup (IF Classical(L) THEN {"selfid", "ident", "exist"} ELSE {})
+  \cup (IF Classical(L) THEN {"selfid", "ident", "exist", "identsub", "existsub"} ELSE {})
 
 Marks(L) == IF Logic(L).style = "plain" THEN {""} ELSE {"+", "-"}
 LitSet(L) == {[neg |-> n, d |-> d] : n \in {0, 1}, d \in Marks(L)}
@@ -70,7 +72,7 @@ LitOK(b, v, lit) ==
   LET x == IF lit.neg = 1 THEN Neg(b, v) ELSE v
   IN IF lit.d = "" THEN x = "T" ELSE IF lit.d = "+" THEN x \in DesOf(b) ELSE x \notin DesOf(b)
 
-Allowed(L, kind) == IF Classical(L) /\ kind \in {"selfid", "exist"} THEN {"T"} ELSE ValsOf(Logic(L).base)
+Allowed(L, kind) == IF Classical(L) /\ kind \in {"selfid", "exist", "existsub"} THEN {"T"} ELSE ValsOf(Logic(L).base)
 
 WorldsOf(c) == {c.lits[k].w : k \in 1..Len(c.lits)}
 LitsAt(c, w) == {c.lits[k] : k \in {k \in 1..Len(c.lits) : c.lits[k].w = w}}
